@@ -445,6 +445,22 @@ def check_schedule(case, rec):
     return out
 
 
+def check_not_skipped(case, rec):
+    """no scheduled rebalance is silently skipped: at every scheduled instant past burn-in that the clock emitted (up to an
+    error, if the run ended in one) the trading system was run"""
+    if rec['construct'] != 'ok' or rec.get('schedule') is None:
+        return []
+    sched = set(rec['schedule'])
+    limit = rec['err'][0] if rec['err'] is not None else None
+    want = [t for t, k in rec['clock'] if t in sched and burn_ok(case, t) and (limit is None or t <= limit)]
+    got = set(a['time'] for a in rec['allocs_tap'])
+    missing = [t for t in want if t not in got]
+    if missing:
+        return [dict(what='the session reached the scheduled rebalance instants %r (of %d) without running the trading system' % (
+            missing[:4], len(want)), key='scheduled-rebalance-skipped')]
+    return []
+
+
 # ---------------------------------------------------------------------------------------------
 # C07: causality
 
@@ -481,7 +497,13 @@ def check_c07(case, rec, rec2, cut_day):
     T = (cut_day + 1) * 86400 - 1
     d1, b1 = k7_real.digest(rec, upto=T)
     d2, b2 = k7_real.digest(rec2, upto=T)
-    if d1 != d2:
+    # the allocation table the session reports (get_target_allocations): rows dated on or before T, cell by cell; a cell
+    # without a value is left out, since which all-empty columns exist depends on what is held later
+    t1, t2 = rec.get('alloc_table'), rec2.get('alloc_table')
+    if isinstance(t1, list) and isinstance(t2, list):
+        b1['alloc_table'] = [[d, sorted((c, f2b(v)) for c, v in row if v is not None)] for d, row in t1 if d <= cut_day]
+        b2['alloc_table'] = [[d, sorted((c, f2b(v)) for c, v in row if v is not None)] for d, row in t2 if d <= cut_day]
+    if d1 != d2 or b1.get('alloc_table') != b2.get('alloc_table'):
         diff = [k for k in b1 if b1[k] != b2[k]]
         detail = ''
         for k in diff:
@@ -874,7 +896,7 @@ def run_batch(prop, tier, rng, cases, n_corpus):
         elif prop == 'C14':
             mm, oo, status = check_c14(c, r, m, tally)
         elif prop == 'C13':
-            oo = check_schedule(c, r)
+            oo = check_schedule(c, r) + check_not_skipped(c, r)
         elif prop == 'C07':
             cut, r2, r3 = pairs[i]
             oo = check_c07(c, r, r2, cut)
